@@ -64,7 +64,8 @@ def _inline_part(ctx, tier):
     for mod, cfg, what in (("mc/MC_MdInline", "MC_MdInline_7.cfg" if tier == "quick" else "MC_MdInline_8.cfg", "emphasis over {a, space, *, _}"),
                            ("mc/MC_MdInline2", "MC_MdInline2_6.cfg" if tier == "quick" else "MC_MdInline2_7.cfg", "code spans, escapes and emphasis over {a, space, *, `, \\}"),
                            ("mc/MC_MdInline3", "MC_MdInline3_5.cfg" if tier == "quick" else "MC_MdInline3_6.cfg", "inline links and emphasis over {a, [, ], (, ), *}"),
-                           ("mc/MC_MdInline4", "MC_MdInline4_2.cfg", "raw HTML open / closing tags: attribute forms x closers")):
+                           ("mc/MC_MdInline4", "MC_MdInline4_2.cfg", "raw HTML open / closing tags: attribute forms x closers"),
+                           ("mc/MC_MdInline5", "MC_MdInline5.cfg", "URI and email autolinks, processing instructions, CDATA sections, declarations: bodies x forms")):
         r = tlc.run(mod, cfg, keep_raw=False, timeout=3000)
         ctx.ev.add_tlc("%s (%s; every line, result balanced)" % (mod, what), r)
         if not r.ok:
